@@ -53,6 +53,7 @@ type World struct {
 	poolBad       map[*ssa.Global]bool
 
 	pureIfaceMethods map[string]bool
+	mayWrite         map[*ssa.Function]bool
 	loadErrors       []string
 }
 
